@@ -99,6 +99,8 @@ ensures r == (if %s.len() == 3 { Some(bors(%s[2])) } else { None::<BlockOrStmt> 
     e.impl('ast::IndexExpr', [
         ('base', dict(H, ret='r', spec='ensures callee_first(%s) ==> r == Some(%s[0]->E_0),      //@C05,C06:indexed-expression' % (KS, KS))),
     ])
+    # the base of an indexed identifier is its (first) identifier child
+    e.impl('ast::IndexedIdentifier', [('identifier', dict(H, ret='r', spec='ensures r == first::<Identifier>(%s),      //@C05,C06,C07:indexed-identifier-base' % KS))])
     # ---- type keyword -> ScalarTypeKind (table generated from the variant names: ScalarTypeKind::X <-> SyntaxKind::X_TY, qubit is a keyword)
     tf = U.file('crates/oq3_syntax/src/ast/type_ext.rs')
     import re as _re
